@@ -34,6 +34,7 @@ type Spec struct {
 	N         int    `json:"n"`
 	Op        string `json:"op"` // export tofile batch stream pinecone chroma weaviate filter
 	Format    int    `json:"format"` // 0 jsonl 1 json 2 csv 3 tsv
+	Delim     string `json:"delim,omitempty"` // CSV: the configured delimiter when it is not the comma
 	Flatten   bool   `json:"flatten"`
 	Header    bool   `json:"header"`
 	Pretty    bool   `json:"pretty"`
@@ -132,6 +133,9 @@ func config(sp *Spec) rag.ExportConfig {
 	if sp.Format%4 == 3 {
 		c.CSVDelimiter = '\t'
 	}
+	if sp.Format%4 == 2 && sp.Delim != "" {
+		c.CSVDelimiter = []rune(sp.Delim)[0]
+	}
 	return c
 }
 
@@ -142,6 +146,13 @@ func (p *Prop) Generate(base uint64, index int, env *sim.Env) *sim.Case {
 		IncludeText: r.Pct(85), IncludeMeta: r.Pct(80), Batch: 1 + r.Intn(12), CallbackFailAt: -1, MissingEmb: -1}
 	if r.Pct(10) {
 		sp.N = sim.Pick(r, []int{0, 1, 2})
+	}
+	if r.Pct(3) {
+		// a large collection (size-dependent code paths: sharding, pre-sizing, batching remainders)
+		sp.N = 250 + r.Intn(400)
+	}
+	if sp.Format == 2 && r.Pct(30) {
+		sp.Delim = sim.Pick(r, []string{";", "|", "\t", ":", "~"})
 	}
 	if r.Pct(30) {
 		all := []string{"document_title", "page_start", "chunk_index", "section_title", "section_path", "element_types", "level", "word_count", "parent_id", "heading_level", "total_chunks", "char_count", "estimated_tokens", "nonexistent"}
@@ -1032,6 +1043,11 @@ func (p *Prop) Shrink(c *sim.Case) []*sim.Case {
 	if sp.Pretty {
 		s := sp
 		s.Pretty = false
+		emit(s)
+	}
+	if sp.Delim != "" {
+		s := sp
+		s.Delim = ""
 		emit(s)
 	}
 	if sp.Flatten {
